@@ -24,6 +24,12 @@ func NewWithConfig(ctx context.Context, config bigcache.Config) (*Cache, error) 
 	}, nil
 }
 
+// Reset drops every entry. The keys carry no epoch identity (CID, slot), so the entries
+// of an epoch that is replaced or removed must not outlive it.
+func (r *Cache) Reset() error {
+	return r.cache.Reset()
+}
+
 func formatRawCarObjectKey(c cid.Cid) string {
 	return "rco-" + c.String()
 }
